@@ -11,8 +11,9 @@ From SimVerif Require Import Proofs.RMInv Proofs.FloorSteps Proofs.FloorLink.
 Import ListNotations.
 Open Scope Z_scope.
 
-Definition lsafe (f : dev -> dev) : Prop := forall x, d_produced (f x) = d_produced x /\ d_level (f x) = d_level x.
-Definition lemit_ok (c : fcmd) : Prop := match c with FData l _ _ => l <> L_SUPPLIED /\ l <> L_LEVEL | _ => True end.
+Definition lsafe (f : dev -> dev) : Prop :=
+  forall x, d_produced (f x) = d_produced x /\ d_level (f x) = d_level x /\ d_value_received (f x) = d_value_received x /\ d_kind (f x) = d_kind x.
+Definition lemit_ok (c : fcmd) : Prop := match c with FData l _ _ => l <> L_SUPPLIED /\ l <> L_LEVEL /\ l <> L_RECEIVED | _ => True end.
 
 Inductive lstep (nw : Z) : fw -> fw -> Prop :=
 | l_dev w d f : lsafe f -> lstep nw w (updd w d f)
@@ -24,7 +25,10 @@ Inductive lstep (nw : Z) : fw -> fw -> Prop :=
 | l_accept_buffer w d it1 :
     lstep nw w (let w' := updd w d (t_accept_buffer nw it1) in data w' L_LEVEL d [nw; d_level (getd w' d)])
 | l_buf_pop w d :
-    lstep nw w (let w2 := updd w d (t_buf_pop nw) in data w2 L_LEVEL d [nw; d_level (getd w2 d)]).
+    lstep nw w (let w2 := updd w d (t_buf_pop nw) in data w2 L_LEVEL d [nw; d_level (getd w2 d)])
+| l_received w d it1 : d_kind (getd w d) <> KSink -> lstep nw w (rec_part w L_RECEIVED d nw it1)
+| l_accept_sink w d it1 : amem d (f_devs w) = true -> d_kind (getd w d) = KSink ->
+    lstep nw w (rec_part (updd w d (t_accept_sink nw it1)) L_RECEIVED d nw it1).
 
 Inductive RL (nw : Z) : fw -> fw -> Prop :=
 | RL_refl w : RL nw w w
@@ -85,7 +89,7 @@ Qed.
 Lemma rlab_lemit l : Forall (fun c => match c with RData lb _ _ => lb = L_RESOURCE_UPDATE | _ => True end) l -> Forall lemit_ok (map conv_rcmd l).
 Proof.
   induction 1 as [|c l H _ IH]; cbn; constructor; [|exact IH]. destruct c as [t p a [|k]|lb sb pl]; cbn; try exact I.
-  rewrite H. split; discriminate.
+  rewrite H. repeat split; discriminate.
 Qed.
 
 Definition mlab (m : mst) : Prop :=
@@ -129,7 +133,7 @@ Lemma mlab_lemit mid l :
   Forall lemit_ok (map (conv_mcmd mid) l).
 Proof.
   induction 1 as [|c l H _ IH]; cbn; constructor; [|exact IH]. destruct c as [t p a|lb pl]; cbn; [exact I|].
-  destruct H as [->|[->| ->]]; split; discriminate.
+  destruct H as [->|[->| ->]]; repeat split; discriminate.
 Qed.
 
 Ltac kl :=
@@ -144,7 +148,7 @@ Ltac kl :=
          | |- context[match d_wait_since ?y with _ => _ end] => destruct (d_wait_since y)
          | |- context[match d_part ?y with _ => _ end] => destruct (d_part y)
          end;
-  split; reflexivity.
+  repeat split; reflexivity.
 
 Section Log.
 Variable nw : Z.
@@ -166,8 +170,8 @@ Lemma RL_unpause w a : RL w (emitf w (FUnpause a)).
 Proof. apply RL_emit. exact I. Qed.
 Lemma RL_cancel w a : RL w (emitf w (FCancel a)).
 Proof. apply RL_emit. exact I. Qed.
-Lemma RL_data w l s p : l <> L_SUPPLIED -> l <> L_LEVEL -> RL w (data w l s p).
-Proof. intros A B. apply RL_emit. split; assumption. Qed.
+Lemma RL_data w l s p : l <> L_SUPPLIED -> l <> L_LEVEL -> l <> L_RECEIVED -> RL w (data w l s p).
+Proof. intros A B C. apply RL_emit. repeat split; assumption. Qed.
 Lemma RL_fail w e : RL w (failf w e).
 Proof.
   apply RL_one, l_quiet.
@@ -303,10 +307,10 @@ Proof.
   ldev w d t_clear_part. Lt.
 Qed.
 
-Lemma RL_accept_rest fuel k w2 d it1 : RL w2 (accept_rest fuel nw k w2 d it1).
+Lemma RL_accept_rest fuel k w2 d it1 : RL (rec_part w2 L_RECEIVED d nw it1) (accept_rest fuel nw k w2 d it1).
 Proof.
   unfold accept_rest.
-  set (w3 := rec_part w2 L_RECEIVED d nw it1). apply (RL_trans w2 w3); [unfold w3, rec_part; apply RL_data; discriminate|].
+  set (w3 := rec_part w2 L_RECEIVED d nw it1).
   set (w4 := run_cbops nw d true false (-1) (d_on_receive (getd w3 d)) w3).
   apply (RL_trans w3 w4); [apply RL_run_cbops|].
   destruct (negb (okf w4)); [Lt|]. set (x := getd w4 d) in *. destruct (d_out x); [Lt|].
@@ -319,15 +323,27 @@ Proof.
   - apply RL_batcher_try_move.
 Qed.
 
-Lemma RL_accept_first w d it1 k : RL w (accept_first nw k w d it1).
+(** taking a part in, up to and including its received-part record: one compound step for a sink (counters and record together) *)
+Lemma RL_accept_first w d it1 k : k = d_kind (getd w d) -> RL w (rec_part (accept_first nw k w d it1) L_RECEIVED d nw it1).
 Proof.
-  unfold accept_first. destruct k.
-  all: try (apply RL_dev; kl).
-  apply RL_one, (l_accept_buffer nw w d it1).
+  intro K. unfold accept_first.
+  assert (NS : forall f, lsafe f -> d_kind (getd w d) <> KSink -> RL w (rec_part (updd w d f) L_RECEIVED d nw it1)).
+  { intros f LS N. apply (RL_trans w (updd w d f)); [apply RL_dev, LS|]. apply RL_one, l_received.
+    rewrite (getd_updd_field d_kind w d f d); [exact N|]. intro y. apply LS. }
+  destruct k.
+  all: try (apply NS; [kl|rewrite <- K; discriminate]).
+  - (* buffer *)
+    cbv zeta. eapply RL_trans; [apply RL_one, (l_accept_buffer nw w d it1)|]. cbv zeta. apply RL_one, l_received.
+    change (getd (data ?a ?b ?c ?e) d) with (getd a d).
+    rewrite (getd_updd_field d_kind w d (t_accept_buffer nw it1) d); [rewrite <- K; discriminate|].
+    intro y. unfold t_accept_buffer, t_accept, dev_set_wait. destruct (d_wait_since y); reflexivity.
+  - (* sink *)
+    apply RL_one, l_accept_sink; [|symmetry; exact K].
+    apply not_blank_amem. intro E. rewrite E in K. discriminate.
 Qed.
 
 Lemma RL_accept fuel w d it : RL w (accept fuel nw w d it).
-Proof. unfold accept. eapply RL_trans; [apply RL_accept_first|apply RL_accept_rest]. Qed.
+Proof. unfold accept. eapply RL_trans; [apply RL_accept_first; reflexivity|apply RL_accept_rest]. Qed.
 
 Lemma RL_proc_can_accept w d : RL w (fst (proc_can_accept nw w d)).
 Proof.
@@ -482,10 +498,10 @@ Proof.
   { unfold w0. destruct (is_holder (d_kind x)); [|Lt]. destruct (d_wait_since x); [|Lt]. apply RL_dev; kl. }
   apply (RL_trans w w0); [exact R0|].
   set (w1 := fold_left (fun w' u => updd w' u (t_down_del d)) (d_up x) w0).
-  apply (RL_trans w0 w1); [unfold w1; apply RL_fold; intros w' u; apply RL_dev; intro y; split; reflexivity|].
-  apply (RL_trans w1 (updd w1 d (t_up ups))); [apply RL_dev; intro y; split; reflexivity|].
+  apply (RL_trans w0 w1); [unfold w1; apply RL_fold; intros w' u; apply RL_dev; intro y; repeat split; reflexivity|].
+  apply (RL_trans w1 (updd w1 d (t_up ups))); [apply RL_dev; intro y; repeat split; reflexivity|].
   apply RL_fold. intros w' u. destruct (existsb (Z.eqb d) (d_down (getd w' u))); [Lt|].
-  apply (RL_trans w' (updd w' u (t_down_add d))); [apply RL_dev; intro y; split; reflexivity|apply RL_signal].
+  apply (RL_trans w' (updd w' u (t_down_add d))); [apply RL_dev; intro y; repeat split; reflexivity|apply RL_signal].
 Qed.
 
 Lemma RL_run_uop fuel w o : RL w (run_uop fuel nw w o).
@@ -523,7 +539,7 @@ Proof.
   set (w1 := updd w d (fun y => dev_set_wait nw true true y)).
   assert (R1 : RL w w1) by (apply RL_dev; kl).
   destruct (d_kind x); try exact R1.
-  - eapply RL_trans; [exact R1|]. apply RL_dev. intro y. split; reflexivity.
+  - eapply RL_trans; [exact R1|]. apply RL_dev. intro y. repeat split; reflexivity.
   - eapply RL_trans; [exact R1|apply RL_sched_finish].
 Qed.
 
@@ -538,7 +554,7 @@ Proof.
   unfold late_create. match goal with |- RL _ (if ?c then _ else _) => destruct c end; [Lt|].
   set (w0 := w <| f_next_id := f_next_id w + 1 |>).
   apply (RL_trans w w0); [apply RL_same; reflexivity|].
-  apply (RL_trans w0 (updd w0 d t_live)); [apply RL_dev; intro y; split; reflexivity|].
+  apply (RL_trans w0 (updd w0 d t_live)); [apply RL_dev; intro y; repeat split; reflexivity|].
   eapply RL_trans; [apply RL_init_dev|apply RL_rewire].
 Qed.
 
